@@ -49,6 +49,27 @@ def base_scenarios(ctx, rng):
     for n in (1, 3):
         out.append({"clen": 10, "slen": 300, "iocb": True, "requests": n,
                     "a": {"max_apdu": 128, "seg_timeout": 1500}, "b": {"max_apdu": 128, "seg_timeout": 1500}})
+    # several requests to several peers in flight at once, some peers silent, with long-lived background
+    # timers that are cancelled and re-armed meanwhile (device applications keep such timers: COV lifetimes,
+    # communication-control durations, schedules)
+    for k, (timers, rearm) in enumerate([
+            ([1000.0, 2000.0, 1500.0], [(1.0, 0, 3000.0)]),
+            ([500.0, 1000.0, 2000.0, 1500.0, 800.0], [(0.5, 1, 2500.0), (2.0, 0, 900.0)]),
+            ([100.0 * (j + 3) for j in range(9)], [(1.0, j, 5000.0 + j) for j in (0, 3, 4, 7)]),
+            ([50.0, 60.0, 70.0, 80.0, 90.0, 100.0, 110.0], [(0.5, 3, 400.0), (1.5, 1, 500.0), (4.0, 5, 600.0)])]):
+        for ret in ([1] if ctx.quick else [0, 1, 3]):
+            out.append({"clen": 10, "slen": 10, "mode": "silent" if k % 2 == 0 else "ack",
+                        "a": {"max_apdu": 128, "retries": ret}, "b": {"max_apdu": 128},
+                        "peers": [{"devid": 30, "silent": True, "max_apdu": 128}, {"devid": 40, "silent": True, "max_apdu": 128},
+                                  {"devid": 50, "silent": k % 2 == 1, "max_apdu": 128}],
+                        "extra_requests": [[30, 0], [40, 0], [50, 0.5]],
+                        "background": {"timers": timers, "rearm": rearm, "horizon": 200.0}, "requests": 1})
+    # IOCB submission where the completion callback itself submits the next request
+    for to in ("same", 30):
+        for cnt in (1, 2):
+            out.append({"clen": 10, "slen": 30, "iocb": True, "requests": 1, "reenter": {"to": to, "count": cnt},
+                        "a": {"max_apdu": 128}, "b": {"max_apdu": 128},
+                        "peers": [{"devid": 30, "max_apdu": 128}]})
     for i, sc in enumerate(out):
         sc.setdefault("know", i % 2 == 0)
     return out
@@ -60,7 +81,7 @@ def shard(ctx, spec):
         r0 = O.run_scenario(sc)
         judge(ctx, sc, r0)
         nf = len(r0["frames"])
-        if sc.get("requests", 1) > 1:
+        if sc.get("requests", 1) > 1 or sc.get("peers") or sc.get("reenter"):
             continue
         # every single fault
         for i in range(nf):
@@ -96,6 +117,48 @@ def shard(ctx, spec):
             judge(ctx, s3, O.run_scenario(s3), label="silence-from-%d" % k)
 
 
+def gen_scripts(ctx, rng, n):
+    """random interleavings of requests to answering/silent peers with housekeeping-timer operations"""
+    out = []
+    for _ in range(n):
+        peers = [30, 40, 50, 60, 70][: rng.randrange(3, 6)]
+        silent = [p for p in peers if rng.random() < 0.6]
+        script, nbg = [], 0
+        deep = rng.random() < 0.5
+        for _k in range(rng.randrange(6, 16) if not deep else rng.randrange(14, 30)):
+            r = rng.random()
+            if r < (0.35 if not deep else 0.2):
+                script.append(["req", rng.choice(peers)])
+            elif r < 0.6:
+                # housekeeping timers with many different (also decreasing) due times: deep, irregular heaps
+                script.append(["bg", float(rng.choice([900, 1000, 1004, 1005, 1008, 2000, 500 + nbg, rng.randrange(100, 5000)]))]); nbg += 1
+            elif r < 0.78 and nbg:
+                script.append(["cancel", rng.randrange(nbg)])
+            elif r < 0.9 and nbg:
+                script.append(["rearm", rng.randrange(nbg), float(rng.choice([800, 1001, 1500, 3000, rng.randrange(100, 5000)]))])
+            else:
+                script.append(["run", rng.choice([0.0, 0.0, 0.1, 1.0, 2.9, 3.0, 3.1])])
+        # one request per peer at most while another to the same peer is outstanding is fine (invoke ids differ)
+        out.append({"peers": peers, "silent": silent, "script": script,
+                    "a": {"max_apdu": 128, "retries": rng.choice([0, 1, 1, 3])}, "iocb": rng.random() < 0.3})
+    # the directed interleaving: requests submitted between housekeeping-timer operations in one instant
+    out.append({"peers": [30, 40, 50], "silent": [30, 40, 50], "a": {"max_apdu": 128, "retries": 1},
+                "script": [["bg", 1000.0], ["req", 30], ["req", 40], ["bg", 1004.0], ["bg", 1005.0], ["req", 50],
+                           ["cancel", 1], ["bg", 1008.0]]})
+    return out
+
+
+def shard_scripts(ctx, spec):
+    for sc in spec["scripts"]:
+        res = O.run_script(sc)
+        nreq = len([o for o in sc["script"] if o[0] == "req"])
+        ctx.count("c04-script", (min(nreq, 6), len(sc["silent"]), tuple(sorted(set(c[1] for c in res["conf"]))), bool(sc.get("iocb"))))
+        for k, w in O.check_script(sc, res):
+            ctx.fail(k, {"script_scenario": sc, "observed": {"conf": res["conf"], "sent": res["sent"], "residue": res["residue"]}}, w)
+    if spec["scripts"]:
+        ctx.sample({"script_scenario": spec["scripts"][0]})
+
+
 def sig(sc, res):
     f = sc.get("faults", {})
     kinds = tuple(sorted(str(a if isinstance(a, str) else a[0]) for a in list(f.values())[:3]))
@@ -125,9 +188,19 @@ def run_impl(ctx):
     n = 16
     specs = [{"index": i, "scenarios": scs[i::n]} for i in range(n)]
     core.run_shards(ctx, "harness.c04_impl", "shard", specs)
+    scripts = gen_scripts(ctx, rng, 3200 if ctx.quick else 40000)
+    core.run_shards(ctx, "harness.c04_impl", "shard_scripts",
+                    [{"scripts": scripts[i::16]} for i in range(16)])
 
 
 def replay_impl(ctx, case):
+    if "script_scenario" in case:
+        sc = case["script_scenario"]
+        res = O.run_script(sc)
+        for k, w in O.check_script(sc, res):
+            ctx.fail(k, case, w)
+        ctx.count("replay", "script")
+        return
     sc = case["scenario"]
     res = O.run_scenario(sc)
     judge(ctx, sc, res)
